@@ -20,7 +20,51 @@ def na(pid, reason):
 
 exec(open(os.path.join(HERE, "tools", "claims.py")).read())
 
+# deciding methods added after the first build (appended to the technique named in claims.py)
+TECH_ADD = {
+ "C01": "builtin arity table (registered parameter count vs check_num_args); deep-pass completeness table",
+ "C02": "connective and division-guard tables; def-use order rule for comprehension shadowing; visibility query and partition rules",
+ "C03": "weak-count exactness: every stored handle is traced on every path",
+ "C04": "once-cell memo and lazy-argument tables; small-array sort/set table; literal-only table of the finished-thunk shortcut",
+ "C05": "regular-language extraction of string predicates from MIR (automata product / emptiness against the YAML 1.2 core-schema patterns and against the escaper's raw set); sibling cross-check of the four manifesters; origin analysis of text sinks; field-order comparison provenance",
+ "C06": "gate soundness table over classify(); float->int cast classification; literal/printer provenance",
+ "C07": "merge table of field states; layer-index provenance; field-read analysis of the object-add shortcut; visibility partition rule",
+ "C08": "emptiness / early-exit tables; visibility-aware equality",
+ "C09": "default-argument environment origin",
+ "C10": "tail-position and callee-kind x tailstrict tables; cache-key origin of the import cycle",
+ "C11": "request schedule table; session maps frozen behind a shared reference; memo-cell origin rule",
+ "C12": "flush / closed-stdout path rules; var[=val] split table; deep-pass completeness table",
+ "C13": "adapter whitelist on the -J list",
+ "C14": "escape, number-transition, digit-retention, span-end and surrogate-class tables",
+ "C15": "slice-layout, visibility-token and suffix-chaining tables",
+ "C16": "renderer margin rule; guard / packed-variable identity for the span-id bit fields",
+ "C17": "binary-search and pivot tables; run-flush index dependency",
+ "C18": "join-separator and trim class tables",
+ "C19": "producer/consumer operand agreement and star-argument cursor tables; must-pass-through of the argument state machine",
+ "C20": "digit-value, parseInt alphabet and base64 length rules; escaper table and bulk-copy guard language",
+}
+
 props = [json.loads(l)["id"] for l in open(os.path.join(HERE, "properties.jsonl"))]
+
+
+def rules_as_built(pid):
+    """one line per rule the check runs today, read from the evidence file its last run wrote"""
+    try:
+        ev = json.load(open(os.path.join(HERE, "evidence", pid + ".json")))
+    except Exception:
+        return ""
+    rules = ev.get("coverage", {}).get("rules", {})
+    out = []
+    for rid in sorted(rules):
+        if rid in ("anchor", "shape"):
+            continue
+        cl = " ".join(rules[rid].get("clause", "").split())
+        if len(cl) > 230:
+            cl = cl[:227].rsplit(" ", 1)[0] + "..."
+        out.append("%s: %s [%d obligations]" % (rid, cl, rules[rid].get("obligations", 0)))
+    return " Rules the check runs on the current tree — " + " | ".join(out) if out else ""
+
+
 checks = []
 for pid in props:
     if pid in CLAIMED:
@@ -32,9 +76,9 @@ for pid in props:
             "evidence_file": "evidence/%s.json" % pid,
             "replay_cmd_template": "./check %s --explain {path}" % pid,
             "engine": "rsj-facts + rules/%s.py" % pid.lower(),
-            "level_claimed": {"category": "other", "text": c["text"], "design_ref": c["ref"]},
+            "level_claimed": {"category": "other", "text": c["text"] + rules_as_built(pid), "design_ref": c["ref"]},
             "level_note": c["note"],
-            "technique": c["technique"],
+            "technique": c["technique"] + ("; " + TECH_ADD[pid] if pid in TECH_ADD else ""),
         })
 not_app = [{"property_id": p, "reason": NOT_APPLICABLE.get(p, "no static rule built for this property yet in this round; it is not claimed rather than covered by a proxy")}
            for p in props if p not in CLAIMED]
